@@ -481,6 +481,10 @@ impl Mp4Track {
             let first_sample = stsc_entry.first_sample;
             let samples_per_chunk = stsc_entry.samples_per_chunk;
 
+            if samples_per_chunk == 0 {
+                return Err(Error::InvalidData("stsc entry with zero samples per chunk"));
+            }
+
             let chunk_id = sample_id
                 .checked_sub(first_sample)
                 .map(|n| n / samples_per_chunk)
